@@ -1072,7 +1072,7 @@ func init() {
 			want, _ := os.ReadFile(refFiles[0])
 			// strace counts `when=K` per system call: enumerate the crash points call by call
 			total := 0
-			for _, call := range []string{"mkdirat", "openat", "write", "close", "renameat", "renameat2", "unlinkat"} {
+			for _, call := range []string{"mkdirat", "openat", "write", "close", "renameat", "renameat2", "unlinkat", "copy_file_range", "sendfile", "pwrite64", "fsync", "fdatasync", "ftruncate", "linkat", "fchmod"} {
 				for k := 1; k < 2000; k++ {
 					dir, _ := os.MkdirTemp(tmp, "c16-")
 					cmd := exec.Command("strace", "-f", "-o", "/dev/null", "-e", "trace="+call,
@@ -1134,7 +1134,8 @@ func init() {
 			// a rename that fails (the temporary file on another device: EXDEV) followed by a crash: whatever saveFailFile
 			// does after the failed rename, a kill at any of its later system calls leaves no partial file under a
 			// name the next run would pick up
-			for _, call := range []string{"openat", "write", "close"} {
+			// (every call a copy of the file could be made with counts, not only write: copy_file_range, sendfile, read …)
+			for _, call := range []string{"openat", "write", "close", "copy_file_range", "sendfile", "read", "pread64", "pwrite64", "fstat", "newfstatat", "ftruncate", "fsync", "fdatasync", "lseek", "fchmod", "fchmodat", "linkat", "unlinkat"} {
 				for k := 1; k < 400; k++ {
 					dir, _ := os.MkdirTemp(tmp, "c16x-")
 					cmd := exec.Command("strace", "-f", "-o", "/dev/null", "-e", "trace=renameat,renameat2,"+call,
